@@ -142,6 +142,22 @@ fn main() {
                 println!("{:6} {}\n        e.g. {}", c, k, ex);
             }
         }
+        Some("selftest") => {
+            // verif-sim selftest <ID|all> [runs] : determinism of every run across processes and worker counts
+            let id = args.get(2).cloned().unwrap_or_else(|| "all".into());
+            let runs: u64 = args.get(3).and_then(|s| s.parse().ok()).unwrap_or(2000);
+            let mut code = 0;
+            for p in props::ALL {
+                if id == "all" || id == p.id() {
+                    let n = if p.id() == "C18" { runs.min(120) } else if p.id() == "C13" { runs.min(300) } else { runs };
+                    let c = selftest_determinism(*p, Tier::Quick, env_seed(), n);
+                    if c != 0 {
+                        code = c;
+                    }
+                }
+            }
+            std::process::exit(code);
+        }
         Some("script") => {
             // type the lines of a file at the prompt and print every event (debugging aid)
             let file = args.get(2).cloned().unwrap_or_else(|| usage());
